@@ -68,6 +68,51 @@ macro_rules! hint_windowed {
         }
     };
 }
+/// HintBitUnpack at K = 3 (a *middle* polynomial exists), omega = 6: all three count bytes and two adjacent position bytes symbolic.
+/// Count patterns that need three polynomials (a dip at an empty middle polynomial, counts that overtake each other) are only
+/// expressible here; same obligations as the K = 2 windows.
+#[kani::proof]
+#[kani::unwind(258)]
+#[kani::stub(zeroize::optimization_barrier, barrier_stub)]
+#[kani::stub(<crate::types::R as core::ops::Drop>::drop, r_drop_stub)]
+fn c08_hint_k3_counts() {
+    const K: usize = 3;
+    const OMEGA: usize = 6;
+    let mut y = [0u8; OMEGA + K];
+    let mut i = 0;
+    while i < OMEGA {
+        y[i] = (10 + i * 20) as u8;
+        i += 1;
+    }
+    y[2] = kani::any();
+    y[3] = kani::any();
+    y[OMEGA] = kani::any();
+    y[OMEGA + 1] = kani::any();
+    y[OMEGA + 2] = kani::any();
+    let r = hint_bit_unpack::<K>(OMEGA as i32, &y);
+    let s = spec::hint_bit_unpack::<K>(OMEGA, &y);
+    match (r, s) {
+        (Ok(h), Some(hs)) => {
+            let p: usize = kani::any();
+            kani::assume(p < 256);
+            kani::assert(h[0].0[p] == hs[0][p] as i32 && h[1].0[p] == hs[1][p] as i32 && h[2].0[p] == hs[2][p] as i32, "C08/C02/C05: decoded hint differs from Algorithm 21");
+            kani::cover!(h[2].0[p] == 1);
+            kani::cover!(y[OMEGA] == y[OMEGA + 1] && y[OMEGA] > 0);
+            core::mem::forget(h);
+        }
+        (Err(_), None) => {
+            kani::cover!(y[OMEGA + 1] < y[OMEGA] && y[OMEGA] <= y[OMEGA + 2] && y[OMEGA + 2] <= OMEGA as u8);
+        }
+        (Ok(h), None) => {
+            kani::assert(false, "C08/C02/C05: malformed hint section accepted (Algorithm 21 returns bottom)");
+            core::mem::forget(h);
+        }
+        (Err(_), Some(_)) => {
+            kani::assert(false, "C08/C02/C01: well-formed hint section rejected");
+        }
+    }
+}
+
 hint_windowed!(c08_hint_window_0, 0);
 hint_windowed!(c08_hint_window_2, 2);
 hint_windowed!(c08_hint_window_4, 4);
